@@ -215,6 +215,10 @@ class World:
         d.mkdir(parents=True)
         (d / 'pc.py').write_text(PC_SOURCE)
         (d / 'pcl.py').write_text(PCL_SOURCE)
+        # the default configuration file of this HOME: never read as long as --config / --ignore-config are honoured
+        dc = self.root / 'home' / '.config' / 'replicat'
+        dc.mkdir(parents=True)
+        (dc / 'replicat.toml').write_text('concurrent = 22\nlog-level = "critical"\nhide-progress = true\n')
         self.general, self.excl_file, self.excl_cli = DOC_GENERAL, DOC_EXCL_FILE, DOC_EXCL_CLI
         self.backends = {
             'pc': {'short': 'PROUDCLOUD', 'params': PC_PARAMS},
@@ -244,17 +248,57 @@ class World:
                 'selector': selector, 'profile_mode': profile_mode, 'label': label}
         return case
 
+    def long_options(self, backend):
+        """Every long option string a command parser may know: all add_argument strings of replicat/utils/cli.py
+        (read off the working tree), --help, and the backend's flags.  Used to tell which abbreviations are unambiguous."""
+        if not hasattr(self, '_longs'):
+            import ast
+            from translate import pyast
+            tree = pyast.module('replicat/utils/cli.py')
+            longs, flags = {'--help'}, {}
+            for n in ast.walk(tree):
+                if isinstance(n, ast.Call) and isinstance(n.func, ast.Attribute) and n.func.attr == 'add_argument':
+                    strs = [a.value for a in n.args if isinstance(a, ast.Constant) and isinstance(a.value, str)]
+                    for x in strs:
+                        if x.startswith('--'):
+                            longs.add(x)
+                            flags.setdefault(x, strs)
+            self._longs, self._flagsets = longs, flags
+        b = self.backends[backend]
+        return self._longs | {'--' + p.replace('_', '-') for p, _ in b['params']}
+
+    def spellings(self, backend, canon, takes_value):
+        """Ways to write the option `canon` (its full long flag) that argparse may accept: the full flag, unambiguous
+        abbreviations (shortest, and one in the middle), '=' forms, the short flag separate and glued."""
+        longs = self.long_options(backend)
+        prefixes = [canon[:k] for k in range(3, len(canon)) if sum(1 for x in longs if x.startswith(canon[:k])) == 1]
+        abbrevs = []
+        if prefixes:
+            abbrevs = [prefixes[0]] + ([prefixes[len(prefixes) // 2]] if len(prefixes) > 2 else [])
+        shorts = [f for f in self._flagsets.get(canon, []) if not f.startswith('--')]
+        out = []
+        for f in [canon] + abbrevs:
+            out.append((f, 'sep'))
+            if takes_value:
+                out.append((f, 'eq'))
+        for f in shorts:
+            out.append((f, 'sep'))
+            if takes_value:
+                out.append((f, 'glued'))
+        return out[1:]          # the first one, (canon, 'sep'), is the reference spelling
+
     def materialise(self, case):
-        """argv, env and config file of a case."""
+        """argv, env and config file of a case.  Every command-line option is first an item (canonical long flag, the
+        row's flags, value or None for a flag) and is then written in the spelling case['respell'] asks for
+        ({canonical flag: (flag text, 'sep' | 'eq' | 'glued')}), by default a documented flag and a separate value."""
         backend = case['backend']
         rows = {r['name']: r for r in self.rows(backend)}
         cmd, positional = next(c for c in COMMANDS if c[0] == case['command'])
-        cli, env, prof, dflt = [], {}, {}, {}
+        items, env, prof, dflt = [], {}, {}, {}
         for name, src, v in case['given'] + case.get('extra', []):
             r = rows[name]
             if src == 'cli':
-                flag = r['flags'][self.n % len(r['flags'])] if r['flags'] else None
-                cli += [flag] if r['cli'] in ('CoStoreTrue', 'CoConstNone') else [flag, v]
+                items.append(('--' + name, r['flags'], None if r['cli'] in ('CoStoreTrue', 'CoConstNone') else v))
             elif src == 'env':
                 env[r['envvar']] = v
             elif src == 'prof':
@@ -265,25 +309,39 @@ class World:
         if 'repository' not in tested and backend != 'local':
             sel = f'{backend}:base-conn'
             if case['selector'] == 'cli':
-                cli = ['-r', sel] + cli
+                items.insert(0, ('--repository', ['-r'], sel))
             elif case['selector'] == 'env':
                 env['REPLICAT_REPOSITORY'] = sel
             else:
                 dflt['repository'] = sel
         self.n += 1
-        argv = [cmd]
+        control = []
         if prof or dflt or case['profile_mode'] in (1, 2):
-            path = self.root / 'cfg' / f'{self.n}.toml'
+            path = self.root / 'cfg' / f'{case.get("cfgid") or self.n}.toml'
             text = ''.join(f'{k} = {toml_value(v)}\n' for k, v in dflt.items())
             if prof or case['profile_mode'] == 2:
                 text += '[prof]\n' + ''.join(f'{k} = {toml_value(v)}\n' for k, v in prof.items())
                 text += '[other]\nconcurrent = 77\nport = 1\n'
-                argv += ['--profile', 'prof']
+                control.append(('--profile', ['--profile'], 'prof'))
             path.write_text(text)
-            argv += ['--config', str(path)]
+            control.append(('--config', ['--config'], str(path)))
         else:
-            argv += ['--ignore-config']
-        argv += cli + positional
+            control.append(('--ignore-config', ['--ignore-config'], None))
+        for _ in range(case.get('verbose', 0)):
+            control.append(('--verbose', ['--verbose'], None))
+        respell = case.get('respell') or {}
+        argv = [cmd]
+        for canon, flags, v in control + items:
+            flag, joiner = respell.get(canon) or (flags[self.n % len(flags)], 'sep')
+            if v is None:
+                argv.append(flag)
+            elif joiner == 'eq':
+                argv.append(f'{flag}={v}')
+            elif joiner == 'glued':
+                argv.append(f'{flag}{v}')
+            else:
+                argv += [flag, v]
+        argv += positional
         return argv, env
 
     def run_many(self, cases):
@@ -344,6 +402,58 @@ def invariance_cases(world, backends):
                                              label=f'{backend}/{row["name"]}'))
             cases.append(world.make_case('local' if row['name'] == 'repository' else backend, 'clean', [], selector='cli', profile_mode=0,
                                          kind='invariance-base', label=f'{backend}/{row["name"]}'))
+    return cases
+
+
+def spelling_cases(world, ctx, backends, per_option):
+    """Whatever spelling of an option the command line parser accepts (full flag, unambiguous abbreviation, --opt=value,
+    short flag, glued short flag) must act exactly like the full spelling - for the options main() needs before it knows the
+    command and the backend (repository, profile, config, ignore-config, verbose) as for all others.  Every scenario also
+    sets lower sources to other values, so an ignored spelling shows."""
+    cases, ci = [], 0
+
+    def scenario(backend, canon, takes_value, make):
+        nonlocal ci
+        sp = world.spellings(backend, canon, takes_value)
+        if per_option is not None and len(sp) > per_option:
+            sp = ctx.rng.sample(sp, per_option)
+        lab = f'{backend}:{canon}:{len(cases)}'
+        cmd = COMMANDS[ci % len(COMMANDS)][0]
+        ci += 1
+        for k, spell in enumerate([None] + sp):
+            c = make(cmd)
+            c.update(kind='spelling', label=lab, cfgid=f'sp{abs(hash(lab)) % 10**9}', ref=spell is None,
+                     respell={canon: spell or (canon, 'sep')}, spelled=spell or (canon, 'sep'))
+            cases.append(c)
+
+    for backend in backends:
+        for row in world.rows(backend):
+            if not row['cli'] or (not row['backend_option'] and backend != 'pc' and row['name'] != 'repository'):
+                continue
+            lower = [s for s in ('env', 'prof', 'dflt') if row[{'env': 'env', 'prof': 'file', 'dflt': 'file'}[s]]]
+            takes_value = row['cli'] not in ('CoStoreTrue', 'CoConstNone')
+
+            def make(cmd, row=row, lower=lower, backend=backend):
+                given = [(row, 'cli', raw_value(row, 'cli', backend, world.files, 0))]
+                if row['name'] != 'no-cache':
+                    given += [(row, s, raw_value(row, s, backend, world.files, 0)) for s in lower]
+                extra = [(next(r for r in world.general if r['name'] == 'cache-directory'), 'dflt', '/cache/lower')] if row['name'] == 'no-cache' else []
+                return world.make_case(backend, cmd, given, selector='env', profile_mode=2, extra=extra)
+            scenario(backend, '--' + row['name'], takes_value, make)
+    rows = {r['name']: r for r in world.rows('pc')}
+    conc, lvl = rows['concurrent'], rows['log-level']
+    # --profile: the profile's values over the default section's
+    scenario('pc', '--profile', True, lambda cmd: world.make_case('pc', cmd, [(conc, 'prof', 13), (conc, 'dflt', 14)], profile_mode=2))
+    # --config: the named file instead of the default configuration file of HOME
+    scenario('pc', '--config', True, lambda cmd: world.make_case('pc', cmd, [(conc, 'dflt', 21)], profile_mode=1))
+    # --ignore-config: no file at all, not even the default one
+    scenario('pc', '--ignore-config', False, lambda cmd: world.make_case('pc', cmd, [], profile_mode=0))
+    # --verbose: decides the logging level although the file names another one
+    def verbose_case(cmd):
+        c = world.make_case('pc', cmd, [(lvl, 'dflt', 'error')], profile_mode=1)
+        c['verbose'] = 1
+        return c
+    scenario('pc', '--verbose', False, verbose_case)
     return cases
 
 
@@ -547,7 +657,7 @@ def model_eff(t, obs, files_content):
 
 # --------------------------------------------------------------------------- checks
 def label(case):
-    return {k: case[k] for k in ('kind', 'backend', 'command', 'given', 'extra', 'selector', 'profile_mode', 'argv', 'env') if k in case}
+    return {k: case[k] for k in ('kind', 'backend', 'command', 'given', 'extra', 'selector', 'profile_mode', 'respell', 'verbose', 'argv', 'env') if k in case}
 
 
 def observed_value(world, case, obs, dest):
@@ -559,7 +669,7 @@ def check(world, cases, rep: Report, with_model=True):
     files_content = {p: Path(p).read_text() for p in world.files.values()}
     rows_by_backend = {b: {r['name']: r for r in world.rows(b)} for b in world.backends}
     for case, obs in zip(cases, results):
-        rep.case((case['kind'], case['backend'], case['command'], case['given'], case['selector'], case['profile_mode']), nontrivial=True)
+        rep.case((case['kind'], case['backend'], case['command'], case['given'], case.get('extra'), case['selector'], case['profile_mode'], case.get('respell'), case.get('verbose')), nontrivial=True)
         rep.count(f'{case["kind"]}:{obs["status"]}')
         rep.count('command:' + case['command'])
         rep.count('sources:' + ('+'.join(sorted({s for _, s, _ in case['given']})) or 'none'))
@@ -637,6 +747,25 @@ def check(world, cases, rep: Report, with_model=True):
                                            ', '.join(f'{v} with {h}' for (v, _), h in zip(items, how)) + f'; built-in {b}',
                                    'signature': {'kind': 'default_section_lost', 'option': lab.split('/', 1)[1], 'backend': lab.split('/')[0]},
                                    'replay': [label(c) for _, c in items]})
+    # (6) every accepted spelling of a command-line option acts like the full spelling
+    def fingerprint(obs):
+        return {'args': obs.get('args'), 'loaded': obs.get('loaded'), 'backend': obs.get('backend'), 'log': obs.get('root_log_level')}
+    refs = {c['label']: o for c, o in zip(cases, results) if c['kind'] == 'spelling' and c.get('ref')}
+    for case, obs in zip(cases, results):
+        if case['kind'] != 'spelling' or case.get('ref'):
+            continue
+        ref = refs.get(case['label'])
+        rep.count('spelling:' + ('accepted' if obs['status'] == 'ok' else 'refused'))
+        if ref is None or ref['status'] != 'ok' or obs['status'] != 'ok':
+            continue            # a spelling the parser refuses with an error is fine
+        a, b = fingerprint(obs), fingerprint(ref)
+        if a != b:
+            diff = [f'{k}: {(a["args"] or {}).get(k)} instead of {(b["args"] or {}).get(k)}' for k in sorted(set(a['args'] or {}) | set(b['args'] or {}))
+                    if (a['args'] or {}).get(k) != (b['args'] or {}).get(k)]
+            diff += [f'{k}: {a[k]} instead of {b[k]}' for k in ('loaded', 'backend', 'log') if a[k] != b[k]]
+            rep.violations.append({'what': f'the command line {case["argv"]} is accepted but does not act like the full spelling {case["respell"]}: ' + '; '.join(diff)[:400],
+                                   'signature': {'kind': 'spelling', 'option': list(case['respell'])[0]},
+                                   'replay': label(case)})
     # (4) the backend that was loaded and constructed is the one the effective repository names
     for case, obs in zip(cases, results):
         if obs['status'] == 'ok':
@@ -701,6 +830,7 @@ def run(ctx) -> Report:
     cases = precedence_cases(world, ctx, backends, all_commands=thorough)
     cases += agreement_cases(world, ctx, ['pc', 's3c', 's3', 'pcl'])
     cases += invariance_cases(world, backends)
+    cases += spelling_cases(world, ctx, ['pc', 's3', 'local'], None if thorough else 4)
     cases += exclusive_cases(world) + invalid_cases(world) + double_coercion_cases(world)
     check(world, cases, rep)
     rep.extra['processes'] = len(cases)
@@ -714,6 +844,7 @@ def search(ctx, broken) -> Report:
     backends = ['pc', 's3c', 's3', 'pcl', 'local']
     cases = precedence_cases(world, ctx, backends, all_commands=True)
     cases += agreement_cases(world, ctx, ['pc', 's3c', 's3', 'pcl']) + invariance_cases(world, backends) + exclusive_cases(world) + invalid_cases(world)
+    cases += spelling_cases(world, ctx, ['pc', 's3', 'local'], None)
     check(world, cases, rep, with_model=False)
     return rep
 
@@ -738,6 +869,12 @@ def replay(ctx, obj):
         extra = [(rows_by_backend[it['backend']][n], s, v) for n, s, v in it.get('extra', [])]
         cases.append(world.make_case(it['backend'], it['command'], given, selector=it.get('selector', 'cli'),
                                      profile_mode=it.get('profile_mode', 0), kind=it.get('kind', 'precedence'), label='replay', extra=extra))
+        if it.get('respell'):
+            canon = list(it['respell'])[0]
+            cases[-1].update(respell={canon: tuple(it['respell'][canon])}, verbose=it.get('verbose', 0), cfgid='replay', ref=False)
+            if it.get('kind') == 'spelling':       # the full spelling of the same command line, to compare with
+                ref = dict(cases[-1], respell={canon: (canon, 'sep')}, ref=True)
+                cases.append(ref)
     results = check(world, cases, rep)
     for c, o in zip(cases, results):
         print('argv:', c['argv'], 'env:', c['env'], '->', o['status'], {n: o.get('args', {}).get(rows_by_backend[c['backend']][n]['dest']) for n, _, _ in c['given']})
